@@ -32,7 +32,7 @@ var (
 
 func main() {
 	if len(os.Args) < 2 {
-		fmt.Fprintln(os.Stderr, "usage: simctl check|replay|selftest|mutants|instrument ...")
+		fmt.Fprintln(os.Stderr, "usage: simctl check|replay|show|selftest|mutants|instrument ...")
 		os.Exit(2)
 	}
 	switch os.Args[1] {
@@ -75,6 +75,12 @@ func main() {
 			os.Exit(2)
 		}
 		os.Exit(replayCmd(*repo, fs.Arg(0)))
+	case "show":
+		if len(os.Args) < 3 {
+			fmt.Fprintln(os.Stderr, "usage: simctl show <replay file>")
+			os.Exit(2)
+		}
+		os.Exit(showCmd(os.Args[2]))
 	case "selftest":
 		fs := flag.NewFlagSet("selftest", flag.ExitOnError)
 		repo := fs.String("repo", "/repo", "repository working tree")
